@@ -24,7 +24,7 @@ VERDICT_MSGS = (
 )
 UNDECIDED_MSGS = ('rlimit', 'Resource limit', 'timed out', 'could not prove termination')
 
-ASSUME_PAT = re.compile(r'\bassume\s*\(|\badmit\s*\(|external_body|assume_specification|\buninterp\b|'
+ASSUME_PAT = re.compile(r'\baxiom\s+fn\b|\bassume\s*\(|\badmit\s*\(|external_body|assume_specification|\buninterp\b|'
                         r'verifier::external\b|external_type_specification|external_trait_specification|'
                         r'verifier::external_fn_specification|#\[verifier::exec_allows_no_decreases_clause\]')
 
@@ -292,3 +292,27 @@ def run_unit(unit_dir, repo, work, rlimit=None):
             res.reason = f'vacuous: canary assert(false) verified under the preconditions of {bad}'
     res.wall_s = time.time() - t0
     return res
+
+
+if __name__ == '__main__':
+    import sys
+    # usage: verus_unit.py <unit> [--declare]   -> run the unit; with --declare rewrite assumptions.txt from the scan
+    here = os.path.dirname(os.path.dirname(os.path.abspath(__file__)))
+    unit = sys.argv[1]
+    udir = os.path.join(here, 'units', unit)
+    if '--declare' in sys.argv:
+        text, meta = expand(os.path.join(udir, 'unit.rs'), '/repo')
+        open(os.path.join(udir, 'assumptions.txt'), 'w').write('')
+        r = run_unit(udir, '/repo', os.path.join(here, 'work', '_declare', unit))
+        with open(os.path.join(udir, 'assumptions.txt'), 'w') as f:
+            f.write(f'// declared assumptions of unit {unit} (must equal the mechanical scan of the generated file)\n')
+            for a in r.assumptions:
+                f.write(a + '\n')
+        print(f'declared {len(r.assumptions)} assumptions')
+    r = run_unit(udir, '/repo', os.path.join(here, 'work', '_single', unit))
+    print(r.status, r.reason)
+    for o in r.obligations:
+        print('  ', o)
+    for f in r.failures:
+        print('FAIL', f['obligation'], f['message'], f['clause'], f['src_loc'])
+    print('canaries', r.canaries)
